@@ -7,6 +7,7 @@ specification's per-segment decoder rewritten to the batch `Spec.decode`.
 -/
 import Woodpile.Props.C06
 import Woodpile.Props.C01
+import Woodpile.Proofs.StreamSegments
 
 namespace Woodpile.Props.C06U
 open Woodpile.Hcobs Woodpile.Stream Woodpile.ReadN Woodpile.Arena Woodpile.Props.C06
@@ -42,5 +43,123 @@ theorem reader_std_judge (clamp : Nat) (hclamp : 2 ≤ clamp) (t : Tuning)
     (nextSeq clamp t Woodpile.Stream.prod (chunkJudge maxSize limit) block n RdState.new r).1 =
       expectedSeq (recordsStd Woodpile.Stream.prod maxSize limit (segments r.src)) n :=
   Woodpile.Props.C06.reader_std_judge split_indep_prod clamp hclamp t block maxSize limit r hwb n
+
+/-! ### "without panicking" includes the embedded decoder -/
+
+/-- **The reader never trips a panic site of the decoder.**  `nextP` is `next_record_bytes`
+with the embedded decoder replaced by its panic-aware version (`Dec.feedAllP`: every
+`assert!`, `unwrap`, slice index and overflow-checked operation of `decoder.rs` is a `panic`
+outcome that makes the call return `NextRes.panic`); it is the function the model driver
+runs.  It equals `next` from every reader state, for every stream, read script, judge and
+block size — so every C06 theorem about `next` / `nextSeq` (in particular "never
+`NextRes.panic`") is a theorem about it. -/
+theorem reader_never_trips_decoder (clamp : Nat) (t : Tuning) (judge : Judge) (block : Option Nat)
+    (s : RdState) (r : Reader) :
+    nextP clamp t Woodpile.Stream.prod judge block s r = next clamp t Woodpile.Stream.prod judge block s r :=
+  nextP_eq clamp t _ prod_valid judge block s r
+
+/-- The reason: every decoder state the reader feeds is a reachable decoder state
+(`DecProof.Reachable`, the hypothesis of `C01.dec_total` / `C07P.dec_call_never_panics`).
+Each turn of the `'retry` loop starts from `Decoder::new_from_iovec` (`Rec.fresh`), and one
+iteration of the inner loop takes a reachable state to a reachable state. -/
+theorem reader_feeds_reachable_states (clamp : Nat) (t : Tuning) (p : Params) (judge : Judge) (block : Nat)
+    (s : RdState) (r : Reader) (rc : Rec) (h : DecProof.Reachable p rc.dec) :
+    DecProof.Reachable p Rec.fresh.dec ∧
+    match step clamp t p judge block s r rc with
+    | .continue _ _ rc' => DecProof.Reachable p rc'.dec
+    | .done _ _ _ => True := by
+  refine ⟨DecProof.Reachable.init, ?_⟩
+  have := step_reach clamp t p judge block s r rc h
+  cases hs : step clamp t p judge block s r rc with
+  | done res s' r' => trivial
+  | «continue» s' r' rc' => rw [hs] at this; exact this
+
+/-! ### one `io_block_size` per call -/
+
+/-- `io_block_size` is an argument of `next_record_bytes`, so it may differ from call to call
+(`nextSeqBP`: the panic-aware reader, one block size per call).  The results do not depend on
+it: always-KeepGoing judge. -/
+theorem reader_keepgoing_blocks (clamp : Nat) (hclamp : 2 ≤ clamp) (t : Tuning)
+    (blocks : List (Option Nat)) (r : Reader) (hwb : WellBehaved r) :
+    (nextSeqBP clamp t Woodpile.Stream.prod keepGoingJudge blocks RdState.new r).1 =
+      expectedSeq (recordsAll Woodpile.Stream.prod (segments r.src)) blocks.length := by
+  rw [nextSeqBP_eq clamp t _ prod_valid, keepGoingJudge_eq]
+  exact nextSeqB_spec _ none (fun _ => false) clamp hclamp t split_indep_prod (fun _ _ _ h => h) rfl
+    blocks RdState.new r hwb
+
+/-- … and the standard judge. -/
+theorem reader_std_judge_blocks (clamp : Nat) (hclamp : 2 ≤ clamp) (t : Tuning)
+    (blocks : List (Option Nat)) (maxSize : Nat) (limit : Option Nat) (r : Reader) (hwb : WellBehaved r) :
+    (nextSeqBP clamp t Woodpile.Stream.prod (chunkJudge maxSize limit) blocks RdState.new r).1 =
+      expectedSeq (recordsStd Woodpile.Stream.prod maxSize limit (segments r.src)) blocks.length := by
+  rw [nextSeqBP_eq clamp t _ prod_valid, chunkJudge_eq]
+  exact nextSeqB_spec _ limit (fun n => decide (maxSize < n)) clamp hclamp t split_indep_prod
+    (fun a b hab h => by simp at h ⊢; omega) (by simp) blocks RdState.new r hwb
+
+/-- The one-block-size-per-run sequences of `Props/C06.lean` are the constant lists. -/
+theorem blocks_constant (clamp : Nat) (t : Tuning) (judge : Judge) (block : Option Nat) (n : Nat)
+    (s : RdState) (r : Reader) :
+    nextSeqBP clamp t Woodpile.Stream.prod judge (List.replicate n block) s r =
+      nextSeq clamp t Woodpile.Stream.prod judge block n s r := by
+  rw [nextSeqBP_eq clamp t _ prod_valid, nextSeqB_replicate]
+
+/-! What `segments` is: `Props/C08S.lean` (sound, complete, tiling, unique = maximal). -/
+
+/-! ### Resynchronisation, phrased with the encoder -/
+
+/-- **A valid record delimited by stuff sequences or by the stream's start / end is returned
+intact no matter what surrounds it** — standard judge.  `Spec.encode prod d` is what an
+`Encoder` produces for `d` (C01/C07).  Wherever it sits in the stream (`Placed`: between two
+delimiters `a FE FD · FE FD b`, at the start `· FE FD b`, at the end `a FE FD ·`, or alone;
+`a`, `b` arbitrary bytes: torn writes, corruption, more delimiters), if `|d| ≤ max` and the
+record starts before the limit offset, one of the first `|segments|` calls returns exactly
+`(d, start .. start + |encoding|)`, for any read schedule and any block size per call. -/
+theorem resync_std (clamp : Nat) (hclamp : 2 ≤ clamp) (t : Tuning) (blocks : List (Option Nat))
+    (maxSize : Nat) (limit : Option Nat) (d : List UInt8) (start : Nat) (r : Reader) (hwb : WellBehaved r)
+    (hpl : Placed (Spec.encode Woodpile.Stream.prod d) r.src start) (hd : d.length ≤ maxSize)
+    (hlim : atLimit limit start = false) (hn : (segments r.src).length ≤ blocks.length) :
+    NextRes.some d start (start + (Spec.encode Woodpile.Stream.prod d).length) ∈
+      (nextSeqBP clamp t Woodpile.Stream.prod (chunkJudge maxSize limit) blocks RdState.new r).1 := by
+  rw [nextSeqBP_eq clamp t _ prod_valid, chunkJudge_eq]
+  exact resync_thresh _ limit (fun n => decide (maxSize < n)) clamp hclamp t split_indep_prod
+    (fun a b hab h => by simp at h ⊢; omega) (by simp) blocks r hwb _ d start hpl
+    (Spec.findStuff_encode _ prod_valid d) (Spec.encode_ne_nil _ prod_valid d)
+    (by rw [decodePieces_is_spec]; exact Spec.decode_encode _ prod_valid d)
+    (by simp; omega) hlim hn
+
+/-- The same for the always-KeepGoing judge (no size or offset condition). -/
+theorem resync_keepgoing (clamp : Nat) (hclamp : 2 ≤ clamp) (t : Tuning) (blocks : List (Option Nat))
+    (d : List UInt8) (start : Nat) (r : Reader) (hwb : WellBehaved r)
+    (hpl : Placed (Spec.encode Woodpile.Stream.prod d) r.src start)
+    (hn : (segments r.src).length ≤ blocks.length) :
+    NextRes.some d start (start + (Spec.encode Woodpile.Stream.prod d).length) ∈
+      (nextSeqBP clamp t Woodpile.Stream.prod keepGoingJudge blocks RdState.new r).1 := by
+  rw [nextSeqBP_eq clamp t _ prod_valid, keepGoingJudge_eq]
+  exact resync_thresh _ none (fun _ => false) clamp hclamp t split_indep_prod
+    (fun _ _ _ h => h) rfl blocks r hwb _ d start hpl
+    (Spec.findStuff_encode _ prod_valid d) (Spec.encode_ne_nil _ prod_valid d)
+    (by rw [decodePieces_is_spec]; exact Spec.decode_encode _ prod_valid d) rfl rfl hn
+
+/-- The three shapes spelled out (the fourth, the record alone, is `Placed.alone`). -/
+theorem placed_shapes (seg a b : List UInt8) :
+    Placed seg (a ++ FE :: FD :: (seg ++ FE :: FD :: b)) (a.length + 2) ∧
+    Placed seg (seg ++ FE :: FD :: b) 0 ∧
+    Placed seg (a ++ FE :: FD :: seg) (a.length + 2) :=
+  ⟨.middle a b rfl rfl, .atStart b rfl rfl, .atEnd a rfl rfl⟩
+
+end Woodpile.Props.C06U
+
+namespace Woodpile.Props.C06U
+open Woodpile.Hcobs Woodpile.Stream Woodpile.ReadN Woodpile.Arena Woodpile.Props.C06
+
+/-! Non-vacuity. -/
+
+-- "a" encoded (`01 61`) after garbage that itself ends in a lone FE, before a torn record
+example : Placed (Spec.encode Woodpile.Stream.prod [0x61])
+    ([0x05, 0xFE] ++ FE :: FD :: (Spec.encode Woodpile.Stream.prod [0x61] ++ FE :: FD :: [0x09, 0x01])) 4 :=
+  .middle _ _ rfl rfl
+example : (nextSeqBP 2 C06.tun Woodpile.Stream.prod (chunkJudge 4 none) [some 0, none, some 7, some 1] RdState.new
+    ⟨[0x05, 0xFE, 0xFE, 0xFD, 0x01, 0x61, 0xFE, 0xFD, 0x09, 0x01], List.replicate 12 (.deliver 3)⟩).1 =
+    [.some [0x61] 4 6, .none, .none, .none] := by decide +kernel
 
 end Woodpile.Props.C06U
